@@ -171,3 +171,121 @@ Qed.
 Lemma transmit_zero :
   cc_byte f0 = 0%N /\ cc_byte (fabs f0) = 0%N /\ cc_byte (fdiv (fadd f0 f1) f2) = 63%N /\ pb_bytes true f0 = (0%N, 64%N).
 Proof. vm_compute. repeat split. Qed.
+
+(* ====================================================================== the negative end stop *)
+Definition fm1 : f64 := f_of_Z (-1).
+
+Lemma fm1_correct : B.B2R fm1 = -1 /\ B.is_finite fm1 = true /\ B.Bsign fm1 = true.
+Proof. destruct (f_of_Z_correct (-1) ltac:(cbn; lia)) as (H1&H2&H3). repeat split; assumption. Qed.
+
+Lemma generic_mone : generic_format radix2 fexp (-1).
+Proof. apply generic_format_opp. exact generic_one. Qed.
+
+(* x / y = -1.0 exactly whenever x = -y as reals, both finite, non-zero, of opposite sign *)
+Lemma fdiv_opposite (x y : f64) :
+  B.is_finite x = true -> B.is_finite y = true -> B.B2R x = - B.B2R y -> B.B2R y <> 0 -> B.Bsign x = negb (B.Bsign y) ->
+  fdiv x y = fm1.
+Proof.
+  intros Hx Hy He Hz Hs.
+  pose proof (B.Bdiv_correct 53 1024 _ _ B.mode_NE x y Hz) as H.
+  replace (B.B2R x / B.B2R y) with (-1) in H by (rewrite He; field; exact Hz).
+  rewrite (round_generic radix2 fexp _ (-1) generic_mone) in H.
+  assert (Eabs : Rabs (-1) = Rabs 1) by (unfold Rabs; destruct (Rcase_abs (-1)), (Rcase_abs 1); lra).
+  rewrite Eabs in H. rewrite Rlt_bool_true in H by exact one_lt_max.
+  destruct H as (H1&H2&H3). destruct fm1_correct as (G1&G2&G3).
+  unfold fdiv. apply B.B2R_Bsign_inj.
+  - rewrite H2. exact Hx.
+  - exact G2.
+  - rewrite H1, G1. reflexivity.
+  - rewrite G3. rewrite H3.
+    + rewrite Hs. destruct (B.Bsign y); reflexivity.
+    + apply finite_not_nan. rewrite H2. exact Hx.
+Qed.
+
+(* with the normalised position exactly -1.0, the shaped position is exactly -1.0 (finite deadzone 0 <= dz < 1) *)
+Lemma shape_tail_minus_one dz :
+  B.is_finite dz = true -> 0 <= B.B2R dz < 1 ->
+  (if flt fm1 f0 then if fgt fm1 (fneg dz) then f0 else rescale false (fadd fm1 dz) dz
+   else if flt fm1 dz then f0 else rescale false (fsub fm1 dz) dz) = fm1.
+Proof.
+  intros Hf Hdz. destruct fm1_correct as (G1&G2&G3). destruct f0_correct as (Z1&Z2).
+  rewrite (flt_correct fm1 f0 G2 Z2), G1, Z1. rewrite Rlt_bool_true by lra.
+  unfold fgt, fneg. rewrite (flt_correct (B.Bopp dz) fm1) by (rewrite ?B.is_finite_Bopp; assumption).
+  rewrite B.B2R_Bopp, G1. rewrite Rlt_bool_false by lra.
+  unfold rescale. destruct (one_minus_dz dz Hf Hdz) as [W1 W2].
+  destruct f1_correct as (O1&O2&O3).
+  (* the numerator -1 + dz is exactly -(1 - dz) after rounding *)
+  pose proof (B.Bplus_correct 53 1024 _ _ B.mode_NE fm1 dz G2 Hf) as P. rewrite G1 in P.
+  pose proof (B.Bminus_correct 53 1024 _ _ B.mode_NE f1 dz O2 Hf) as M. rewrite O1 in M.
+  assert (Hle : Rabs (rnd (1 - B.B2R dz)) <= 1).
+  { rewrite Rabs_pos_eq.
+    - rewrite <- (round_generic radix2 fexp (B.round_mode B.mode_NE) 1 generic_one) at 2.
+      apply round_le; [apply FLT_exp_valid; reflexivity|apply B.valid_rnd_round_mode|lra].
+    - rewrite <- (round_0 radix2 fexp (B.round_mode B.mode_NE)).
+      apply round_le; [apply FLT_exp_valid; reflexivity|apply B.valid_rnd_round_mode|lra]. }
+  assert (Hlt : Rabs (rnd (1 - B.B2R dz)) < bpow radix2 1024)
+    by (eapply Rle_lt_trans; [exact Hle|apply (bpow_lt radix2 0 1024); lia]).
+  rewrite Rlt_bool_true in M by exact Hlt.
+  change (SpecFloat.fexp 53 1024) with fexp in P, M.
+  assert (Eopp : rnd (-1 + B.B2R dz) = - rnd (1 - B.B2R dz)).
+  { replace (-1 + B.B2R dz) with (- (1 - B.B2R dz)) by lra. apply (round_NE_opp radix2 fexp). }
+  rewrite Eopp, Rabs_Ropp in P. rewrite Rlt_bool_true in P by exact Hlt.
+  destruct P as (P1&P2&P3). destruct M as (M1&M2&M3).
+  apply fdiv_opposite.
+  - exact P2.
+  - exact W1.
+  - unfold fadd, fsub. rewrite P1, M1. reflexivity.
+  - exact W2.
+  - unfold fadd, fsub. rewrite P3, M3.
+    rewrite Rcompare_Lt by lra. rewrite Rcompare_Gt by lra. reflexivity.
+Qed.
+
+(* The negative end stop of a signed axis: for every range with -2^31 <= min < 0, every finite deadzone 0 <= dz < 1:
+   the shaped position at raw = min is exactly -1.0 *)
+Lemma endstop_min mn mx dz :
+  (- 2 ^ 31 <= mn < 0)%Z -> B.is_finite dz = true -> 0 <= B.B2R dz < 1 ->
+  fst (shape mn mx false dz mn) = fm1.
+Proof.
+  intros Hmn Hf Hdz. unfold shape, shape_gen.
+  assert (Hneg : (mn <? 0)%Z = true) by (apply Z.ltb_lt; lia). rewrite Hneg.
+  destruct (f_of_Z_correct mn ltac:(lia)) as (X1&X2&X3).
+  assert (Hv : fdiv (f_of_Z mn) (fabs (f_of_Z mn)) = fm1).
+  { apply fdiv_opposite.
+    - exact X2.
+    - unfold fabs. rewrite B.is_finite_Babs. exact X2.
+    - unfold fabs. rewrite B.B2R_Babs, X1. rewrite Rabs_left; [lra|]. apply (IZR_lt mn 0). lia.
+    - unfold fabs. rewrite B.B2R_Babs, X1. apply Rabs_no_R0. apply not_0_IZR. lia.
+    - unfold fabs. rewrite B.Bsign_Babs, X3, Hneg. reflexivity. }
+  rewrite Hv. cbv beta iota zeta. cbn [fst]. apply shape_tail_minus_one; assumption.
+Qed.
+
+(* The lower end stop of an unsigned axis re-centred by deadzone_at_center: raw = min = 0 shapes to exactly -1.0 *)
+Lemma endstop_min_centred mx dz :
+  (0 < mx < 2 ^ 31)%Z -> B.is_finite dz = true -> 0 <= B.B2R dz < 1 ->
+  fst (shape 0 mx true dz 0) = fm1.
+Proof.
+  intros Hmx Hf Hdz. unfold shape, shape_gen. change (0 <? 0)%Z with false. cbv iota.
+  destruct (f_of_Z_correct mx ltac:(lia)) as (X1&X2&X3).
+  assert (Hv : fdiv (f_of_Z 0) (fabs (f_of_Z mx)) = f0).
+  { assert (Hz : B.B2R (fabs (f_of_Z mx)) <> 0).
+    { unfold fabs. rewrite B.B2R_Babs, X1. apply Rabs_no_R0. apply not_0_IZR. lia. }
+    pose proof (B.Bdiv_correct 53 1024 _ _ B.mode_NE (f_of_Z 0) (fabs (f_of_Z mx)) Hz) as H.
+    destruct f0_correct as (Z1&Z2). change (f_of_Z 0) with f0 in *. rewrite Z1 in H.
+    replace (0 / B.B2R (fabs (f_of_Z mx))) with 0 in H by (field; exact Hz).
+    rewrite round_0 in H by apply B.valid_rnd_round_mode. rewrite Rabs_R0 in H.
+    rewrite Rlt_bool_true in H by apply bpow_gt_0.
+    destruct H as (H1&H2&H3). unfold fdiv. apply B.B2R_Bsign_inj.
+    - rewrite H2. exact Z2.
+    - exact Z2.
+    - rewrite H1, Z1. reflexivity.
+    - rewrite H3 by (apply finite_not_nan; rewrite H2; exact Z2).
+      unfold fabs. rewrite B.Bsign_Babs. reflexivity. }
+  rewrite Hv.
+  assert (Hc : fsub (fmul f0 f2) f1 = fm1) by (apply B.B2SF_inj; vm_compute; reflexivity).
+  rewrite Hc. cbv beta iota zeta. cbn [fst]. apply shape_tail_minus_one; assumption.
+Qed.
+
+(* what is transmitted for -1.0: 127 on the negative controller of a pair, 0 on a unidirectional controller, 0 on pitch bend *)
+Lemma transmit_minus_one :
+  cc_encode true true fm1 = (true, 127%N) /\ cc_encode true false fm1 = (false, 0%N) /\ pb_bytes true fm1 = (0%N, 0%N).
+Proof. vm_compute. repeat split. Qed.
